@@ -765,3 +765,73 @@ def parse_expr(tokens):
     if pos[0] != len(tokens):
         raise ExprSyntaxError("trailing tokens")
     return e
+
+
+# ------------------------------------------------------------------------------------------ reference encoder
+class RefEncoder:
+    """Independent writer for fixed-size types: list of byte int-likes, padding and unassigned bits zero,
+    plus the data-bit mask of what it wrote."""
+
+    def __init__(self, endian, align, ptr_bytes, consts=None):
+        self.big = endian in (">", "!")
+        self.layout = Layout(align, ptr_bytes, consts)
+
+    def encode(self, T, v):
+        size, _ = self.layout.size_align(T)
+        out = [0] * size
+        mask = [0] * size
+        self._put(T, v, out, mask, 0)
+        return out, mask
+
+    def _put_int(self, v, n, out, mask, pos):
+        b = encode_int(v, n, None, self.big)
+        for i in range(n):
+            out[pos + i] = b[i]
+            mask[pos + i] = 0xFF
+
+    def _put(self, T, v, out, mask, pos):
+        k = T[0]
+        if k == "int":
+            self._put_int(v, T[1], out, mask, pos)
+        elif k == "enum":
+            self._put(T[2], v, out, mask, pos)
+        elif k == "ptr":
+            self._put_int(v, self.layout.ptr, out, mask, pos)
+        elif k == "char":
+            out[pos] = v[0]
+            mask[pos] = 0xFF
+        elif k == "wchar":
+            self._put_int(v[0], 2, out, mask, pos)
+        elif k == "float":
+            self._put_int(v[2], FLOAT_SIZE[T[1]], out, mask, pos)
+        elif k == "void":
+            pass
+        elif k == "arr":
+            ET = T[1]
+            es, _ = self.layout.size_align(ET)
+            n = self.layout.static_count(T[2])
+            for i in range(n):
+                e = v[i:i + 1] if ET[0] == "char" else [v[i]] if ET[0] == "wchar" else v[i]
+                self._put(ET, e, out, mask, pos + i * es)
+        elif k == "struct":
+            offs, size, _ = self.layout.struct_layout(T)
+            for (fname, FT, bits), (foff, used) in zip(T[2], offs):
+                key = fname if fname is not None else FT[1]
+                if bits:
+                    s, _ = self.layout.size_align(FT)
+                    nb = s * 8
+                    shift = (nb - used - bits) if self.big else used
+                    for kbit in range(bits):
+                        bit = (v[key] >> kbit) & 1
+                        ub = shift + kbit
+                        byte = pos + foff + ((s - 1 - ub // 8) if self.big else ub // 8)
+                        out[byte] = out[byte] | (bit << (ub % 8))
+                        mask[byte] |= 1 << (ub % 8)
+                else:
+                    self._put(FT, v[key], out, mask, pos + foff)
+        elif k == "union":
+            # the first member carries the bytes; callers track union buffers themselves
+            fname, FT, _ = T[2][0]
+            self._put(FT, v[fname if fname is not None else FT[1]], out, mask, pos)
+        else:
+            raise ValueError(T)
